@@ -60,4 +60,103 @@ theorem mem_prefixes {α} {p as : List α} : p ∈ prefixes as ↔ ∃ s, as = p
         obtain ⟨rfl, hs⟩ := hs
         exact ⟨p, ih.mpr ⟨s, hs⟩, rfl⟩
 
+/-! ### map insertion and the reply fold -/
+
+theorem RepMap.mem_insert {m : RepMap M} {k : NodeId} {v : M} {p : NodeId × M} :
+    p ∈ m.insert k v ↔ p = (k, v) ∨ (p ∈ m ∧ p.1 ≠ k) := by
+  simp [RepMap.insert, List.mem_filter]
+
+theorem RepMap.length_insert_le (m : RepMap M) (k : NodeId) (v : M) :
+    (m.insert k v).length ≤ m.length + 1 := by
+  simp only [RepMap.insert, List.length_cons]
+  exact Nat.succ_le_succ (List.length_filter_le _ _)
+
+theorem RepMap.keys_nodup_insert {m : RepMap M} (h : (m.map (·.1)).Nodup) (k : NodeId) (v : M) :
+    ((m.insert k v).map (·.1)).Nodup := by
+  simp only [RepMap.insert, List.map_cons, List.nodup_cons]
+  constructor
+  · simp [List.mem_map, List.mem_filter]
+  · exact (List.Sublist.map _ List.filter_sublist).nodup h
+
+/-- inserting a key that is not bound yet is a plain `cons` -/
+theorem RepMap.insert_of_not_mem {m : RepMap M} {k : NodeId} (h : ∀ p ∈ m, p.1 ≠ k) (v : M) :
+    m.insert k v = (k, v) :: m := by
+  simp only [RepMap.insert, List.cons.injEq, true_and]
+  apply List.filter_eq_self.mpr
+  intro p hp
+  simpa using h p hp
+
+theorem replySet_append_reply (pre : List (Arrival M E)) (n : NodeId) (m : M) :
+    replySet (pre ++ [Arrival.reply n m]) = (replySet pre).insert n m := by
+  simp [replySet, addReplies]
+
+theorem replySet_append_error (pre : List (Arrival M E)) (n : NodeId) (c : E) :
+    replySet (pre ++ [Arrival.error n c]) = replySet pre := by
+  simp [replySet, addReplies]
+
+theorem replySet_append_ctxDone (pre : List (Arrival M E)) (c : E) :
+    replySet (pre ++ [Arrival.ctxDone c]) = replySet pre := by
+  simp [replySet, addReplies]
+
+/-- every entry of the fold is an entry of the accumulator or a reply of the history -/
+theorem mem_addReplies {acc : RepMap M} {as : List (Arrival M E)} {n : NodeId} {m : M}
+    (h : (n, m) ∈ addReplies acc as) : (n, m) ∈ acc ∨ Arrival.reply n m ∈ as := by
+  induction as generalizing acc with
+  | nil => left; exact h
+  | cons a as ih =>
+    cases a with
+    | reply n' m' =>
+      simp only [addReplies] at h
+      rcases ih h with h' | h'
+      · rcases RepMap.mem_insert.mp h' with h'' | ⟨h'', _⟩
+        · right; simp only [Prod.mk.injEq] at h''; obtain ⟨rfl, rfl⟩ := h''; simp
+        · left; exact h''
+      · right; exact List.mem_cons_of_mem _ h'
+    | error n' c =>
+      simp only [addReplies] at h
+      rcases ih h with h' | h'
+      · left; exact h'
+      · right; exact List.mem_cons_of_mem _ h'
+    | ctxDone c =>
+      simp only [addReplies] at h
+      rcases ih h with h' | h'
+      · left; exact h'
+      · right; exact List.mem_cons_of_mem _ h'
+
+theorem addReplies_keys_nodup {acc : RepMap M} (as : List (Arrival M E)) (h : (acc.map (·.1)).Nodup) :
+    ((addReplies acc as).map (·.1)).Nodup := by
+  induction as generalizing acc with
+  | nil => exact h
+  | cons a as ih =>
+    cases a with
+    | reply n m => exact ih (RepMap.keys_nodup_insert h n m)
+    | error n c => exact ih h
+    | ctxDone c => exact ih h
+
+/-- every arrival adds at most one answer (an error or a map entry) -/
+theorem errsOf_addReplies_length_le (acc : RepMap M) (as : List (Arrival M E)) :
+    (errsOf as).length + (addReplies acc as).length ≤ acc.length + as.length := by
+  induction as generalizing acc with
+  | nil => simp [errsOf, addReplies]
+  | cons a as ih =>
+    cases a with
+    | reply n m =>
+      have := ih (acc.insert n m)
+      have := RepMap.length_insert_le acc n m
+      simp only [errsOf, addReplies, List.length_cons]; omega
+    | error n c =>
+      have := ih acc
+      simp only [errsOf, addReplies, List.length_cons]; omega
+    | ctxDone c =>
+      have := ih acc
+      simp only [errsOf, addReplies, List.length_cons]; omega
+
+theorem prefixes_length_le {α} {p as : List α} (h : p ∈ prefixes as) : p.length ≤ as.length := by
+  obtain ⟨s, rfl⟩ := mem_prefixes.mp h
+  simp
+
+theorem mem_of_mem_prefixes {α} {p as : List α} (h : p ∈ prefixes as) {a : α} (ha : a ∈ p) : a ∈ as := by
+  obtain ⟨s, rfl⟩ := mem_prefixes.mp h
+  exact List.mem_append_left _ ha
+
 end GorumsV.ReplyLoop
